@@ -378,14 +378,14 @@ struct Case {
 const DUMP: &str = "rule dump {\n  %r !exists\n}\n";
 
 fn build(u: &mut Choices) -> Case {
-    let fns = ["count", "to_upper", "to_lower", "url_decode", "substring", "join", "parse_int", "parse_float", "parse_string", "parse_boolean", "json_parse", "compose_int", "regex_replace", "parse_char", "compose_char", "parse_epoch"];
+    let fns = ["count", "to_upper", "to_lower", "url_decode", "substring", "join", "parse_int", "parse_float", "parse_string", "parse_boolean", "json_parse", "compose_int", "regex_replace", "parse_char", "compose_char", "parse_epoch", "char_to_int", "char_to_float"];
     let f = fns[u.below(fns.len())];
     let bias = match f {
         "parse_int" | "compose_int" => "int",
         "parse_float" => "float",
         "parse_boolean" => "bool",
         "url_decode" => "url",
-        "parse_char" | "compose_char" => "char",
+        "parse_char" | "compose_char" | "char_to_int" | "char_to_float" => "char",
         "parse_epoch" => "epoch",
         _ => "",
     };
@@ -445,6 +445,32 @@ fn build(u: &mut Choices) -> Case {
             let e = expected("parse_char", &members, None, None);
             lets.push_str(&format!("let s1 = parse_char({})\n", arg));
             ("parse_string(%s1)".to_string(), e)
+        }
+        "char_to_int" | "char_to_float" => {
+            // parse_int / parse_float of a char: the digit's value, an error for any other char
+            let e = match expected("parse_char", &members, None, None) {
+                Exp::Values(vs) => {
+                    let mut out = vec![];
+                    let mut bad = false;
+                    for v in &vs {
+                        match v {
+                            V::Str(c) if c.len() == 1 && c.as_bytes()[0].is_ascii_digit() => {
+                                let d = (c.as_bytes()[0] - b'0') as i64;
+                                out.push(if f == "char_to_int" { V::Int(d) } else { V::Float(d as f64) });
+                            }
+                            _ => bad = true,
+                        }
+                    }
+                    if bad {
+                        Exp::Error
+                    } else {
+                        Exp::Values(out)
+                    }
+                }
+                other => other,
+            };
+            lets.push_str(&format!("let s1 = parse_char({})\n", arg));
+            (if f == "char_to_int" { "parse_int(%s1)".to_string() } else { "parse_float(%s1)".to_string() }, e)
         }
         "regex_replace" => {
             // anchored pattern that matches the whole string (the documentation's example shape)
@@ -673,7 +699,7 @@ fn doc_example_case(i: usize) -> CaseResult {
 
 pub fn run(tier: Tier, seed: u64) -> i32 {
     let spec = EvidenceSpec {
-        rule: "Random calls of count, to_upper, to_lower, url_decode, substring, join, parse_int, parse_float, parse_string, parse_boolean, json_parse, regex_replace (anchored matching pattern), parse_char (ints 0-9 / one-character strings; longer strings and other ints must be errors), parse_epoch (strict RFC 3339 timestamps incl. fractions, offsets, month ends, leap days, pre-1970 against a days-from-civil implementation; malformed timestamps must be errors) and the composites parse_int(parse_string(n)), parse_string(parse_char(c)) on argument lists of 0-5 members drawn from unicode / numeric / padded / signed / percent-encoded strings, ints, floats, bools, null, lists and unresolved members; argument forms query, variable, literal and nested call; substring offsets from {-1,0..5,11,65535,65536,65538,i64::MAX,1.0} incl. an 80 000-character string. The result set is read from the structured report of `%r !exists` (one failing check per member, in order; SKIP = empty) and compared with an independent implementation in the harness; unparsable converter input must be an evaluation error; a single scalar result is then used in `%r == lit`, `%r != lit`, `%r in [..]` and count(%r). Outcomes the documentation does not determine (malformed percent escapes, non-ASCII substring, exotic float notations, join over unresolved members) are generated but not asserted. Non-trivial: an asserted case; distinct by hash of the texts.".into(),
+        rule: "Random calls of count, to_upper, to_lower, url_decode, substring, join, parse_int, parse_float, parse_string, parse_boolean, json_parse, regex_replace (anchored matching pattern), parse_char (ints 0-9 / one-character strings; longer strings and other ints must be errors), parse_epoch (strict RFC 3339 timestamps incl. fractions, offsets, month ends, leap days, pre-1970 against a days-from-civil implementation; malformed timestamps must be errors) and the composites parse_int(parse_string(n)), parse_string(parse_char(c)), parse_int / parse_float of a parse_char result (digit value, or an error for any other character) on argument lists of 0-5 members drawn from unicode / numeric / padded / signed / percent-encoded strings, ints, floats, bools, null, lists and unresolved members; argument forms query, variable, literal and nested call; substring offsets from {-1,0..5,11,65535,65536,65538,i64::MAX,1.0} incl. an 80 000-character string. The result set is read from the structured report of `%r !exists` (one failing check per member, in order; SKIP = empty) and compared with an independent implementation in the harness; unparsable converter input must be an evaluation error; a single scalar result is then used in `%r == lit`, `%r != lit`, `%r in [..]` and count(%r). Outcomes the documentation does not determine (malformed percent escapes, non-ASCII substring, exotic float notations, join over unresolved members) are generated but not asserted. Non-trivial: an asserted case; distinct by hash of the texts.".into(),
         assumptions: vec!["Rust's to_uppercase/to_lowercase, str::parse and string slicing are part of the trusted base of the reference implementation".into()],
     };
     execute("C18", tier, seed, spec, &replay, &|run: &Session| {
